@@ -42,6 +42,7 @@ type GhostDecl struct {
 }
 
 type FuncContract struct {
+	AutoVolatile bool // synthesized: the function is verified only because it writes a volatile field
 	Key        string
 	Header     string
 	RecvName   string
@@ -107,6 +108,17 @@ type TypeContract struct {
 	Invs   map[string][]*Clause // mutex field -> invariants
 	Ghost  []GhostDecl
 	File   string
+	// Volatile fields: code outside the verified functions (a foreign callee holding the object behind an interface)
+	// may change the field at any call that leaves the module, but only as the two-state relation allows; every module
+	// function storing to the field must respect the relation too.
+	Volatile []*VolatileSpec
+}
+
+type VolatileSpec struct {
+	Field string
+	Rel   *Expr
+	Text  string
+	Props []string
 }
 
 type Axiom struct {
@@ -165,7 +177,7 @@ func (cs *ContractSet) forFunc(fn *ssa.Function) *FuncContract {
 
 var clauseKW = map[string]bool{"func": true, "type": true, "pure": true, "uf": true, "lemma": true, "ghost": true, "requires": true, "ensures": true,
 	"modifies": true, "decreases": true, "loop": true, "iterates": true, "concurrent": true, "props": true, "terminates": true,
-	"noinline": true, "callbackinv": true, "assert": true, "assume": true, "axiom": true, "assumelocked": true, "ghostentry": true, "callback": true, "arith": true, "nonnil": true, "guards": true, "invariant": true, "latch": true, "params": true, "results": true, "trusted": true, "purefn": true}
+	"noinline": true, "callbackinv": true, "assert": true, "assume": true, "axiom": true, "assumelocked": true, "ghostentry": true, "callback": true, "arith": true, "nonnil": true, "volatile": true, "guards": true, "invariant": true, "latch": true, "params": true, "results": true, "trusted": true, "purefn": true}
 
 var tagRe = regexp.MustCompile(`^(\w+)\[([A-Z0-9, ]+)\]`)
 
@@ -496,6 +508,20 @@ func (cs *ContractSet) LoadContractFile(path string, pkgKey string) error {
 					curF.ResultNames = append(curF.ResultNames, strings.TrimSpace(p))
 				}
 			}
+		case "volatile":
+			// volatile <field> : <two-state relation over self.<field> and old(self.<field>)>
+			if curT == nil {
+				return fail("volatile outside type block")
+			}
+			parts := strings.SplitN(rest, ":", 2)
+			if len(parts) != 2 {
+				return fail("volatile <field> : <relation>")
+			}
+			e, err := ParseExpr(strings.TrimSpace(parts[1]))
+			if err != nil {
+				return fail("%v", err)
+			}
+			curT.Volatile = append(curT.Volatile, &VolatileSpec{Field: strings.TrimSpace(parts[0]), Rel: e, Text: strings.TrimSpace(parts[1]), Props: props})
 		case "nonnil":
 			if curT == nil {
 				return fail("nonnil outside type block")
@@ -556,7 +582,7 @@ func splitTop(s string, sep byte) []string {
 	return out
 }
 
-var hdrRecvRe = regexp.MustCompile(`^\(\s*(\w+)?\s*(\*?)\s*([\w.\[\], ]+)\s*\)\s*([\w$]+)$`)
+var hdrRecvRe = regexp.MustCompile(`^\(\s*(\w+)?\s*(\*?)\s*([\w./\-\[\], ]+)\s*\)\s*([\w$]+)$`)
 
 func parseFuncHeader(h string, pkgKey string) (key, recv string, err error) {
 	h = strings.TrimSpace(h)
